@@ -6,7 +6,8 @@ An op line is `<op> <args…> | <annotation>`: the annotation is what the REAL d
 stream bytes (structured message fields as tokens, `X` = the frame did not decode / never came,
 `~` = absent optional field) plus the oracle facts of trusted library calls; the model never sees
 raw stream bytes (the decoders are trusted, DESIGN §8).  One output line per op:
-`ok|err|panic[ <later-use ok|panic>]`. -/
+`ok|err|panic[ <later-use ok|panic>]` (ci.resp after `ok ok`: ` v<Len>:<hex>|v-`, the presence vector stored
+for the (root, target) of the message). -/
 namespace Driver.C37
 open Aurora.Handlers
 
@@ -190,6 +191,12 @@ def pCiResp (st : St) : P (St × String) := do
   let resp : ChunkInfoResp := ⟨root, target, req, entries.map (fun e => (e.1, e.2.1))⟩
   let (s, out) := withLaterOk (ciRespNew st.ci (some resp) reqSelf tkey isSelf)
     (fun s => do ciLater s root 0; ciLater s root 1; ciLater s root 2; ciLater s root 3; ciLater s root (chunkSize s root - 1))
+  -- after `ok ok`: the vector now stored for (root, target), `v<Len>:<bytes>` or `v-`
+  let out := match s, out with
+    | some s', "ok ok" => match s'.disc.lookup (root, target) with
+      | some (some v) => out ++ " v" ++ toString v.len ++ ":" ++ Driver.bytesToHex v.b
+      | _ => out ++ " v-"
+    | _, _ => out
   pure ({ st with ci := s.getD CiState.init }, out)
 
 def pCiPyramid (st : St) : P (St × String) := do
